@@ -134,6 +134,18 @@ theorem evalRV_names (cfg : Cfg) (s s1 : St) (r : RV) (v : Val) (h : evalRV cfg 
   cases r with
   | int n => simp [evalRV] at h; rw [← h.2]
   | null => simp [evalRV] at h; rw [← h.2]
+  | str cs => simp [evalRV] at h; rw [← h.2]
+  | upd p u =>
+    simp only [evalRV] at h
+    cases hr : readPlace s p with
+    | none => simp [hr] at h
+    | some w =>
+      cases w with
+      | arr a kids => simp [hr] at h
+      | sc sv =>
+        cases hu : u.apply sv with
+        | none => simp [hr, hu] at h
+        | some r => simp [hr, hu] at h; rw [← h.2]
   | rd p =>
     simp only [evalRV] at h
     cases hr : readPlace s p with
